@@ -17,6 +17,7 @@ func search(command *bytecode.Command, filename string, reader *files.Reader, mo
 	case bytecode.ReplaceCommand:
 		return searchReplace(&com, filename, reader, mode)
 	case bytecode.SetCommand:
+		reader.Close()
 		return Matches{}
 	}
 	panic(fmt.Sprintf("Unknown command %T", ci))
@@ -90,7 +91,9 @@ func findMatches(insts []bytecode.SearchInstruction, all bool, skip int, take in
 }
 
 func searchFind(c *bytecode.FindCommand, filename string, reader *files.Reader, mode ReplaceMode) Matches {
-	return findMatches(c.Body, c.All, c.Skip, c.Take, c.Last, filename, reader)
+	foundMatches := findMatches(c.Body, c.All, c.Skip, c.Take, c.Last, filename, reader)
+	reader.Close()
+	return foundMatches
 }
 
 func searchReplace(c *bytecode.ReplaceCommand, filename string, reader *files.Reader, mode ReplaceMode) Matches {
@@ -143,6 +146,9 @@ func searchReplace(c *bytecode.ReplaceCommand, filename string, reader *files.Re
 
 	writer.Close()
 	replaceReader.Close()
+	if replaceReader != reader {
+		reader.Close()
+	}
 
 	return replacedMatches
 }
